@@ -209,7 +209,8 @@ const TEXT_VALUES_NUMLEAD: &[&[&str]] = &[&["1", "scant"], &["2", "heaped"], &["
 /// canonical parser only (no ADVANCED_UNITS there): a number followed by words without `%` is one text value
 const TEXT_VALUES_SPACED_UNIT: &[&[&str]] = &[&["2", "1/2", "cups"], &["1", "kg"], &["3", "big", "ones"], &["1", "1/2", "(heaped)", "tbsp"]];
 const NOTE_WORDS: &[&str] = &["finely", "chopped", "sifted", "room", "temperature", "large", "peeled", "crème"];
-const META_KEYS: &[&str] = &["note", "origin", "k1", "my key", "Kategorie", "x"];
+// free keys and standard keys whose value may be any text
+const META_KEYS: &[&str] = &["note", "origin", "k1", "my key", "Kategorie", "x", "title", "description", "cuisine", "author", "tags", "course"];
 const ESCAPABLE: &[char] = &['@', '#', '~', '{', '}', '>', '=', '\\', '-', '['];
 
 #[derive(Clone, Copy, PartialEq, Eq, Debug)]
